@@ -101,6 +101,58 @@ pub fn c13(ctx: &mut Ctx) {
             }
         }
     }
+    c13_sparse(ctx);
+}
+
+/// beyond the exhaustive square: a sparse sample of LARGER arguments (an operation can be right on every small
+/// argument and wrong from some size on — a wrong constant inside, a fixed unrolling, a budget)
+fn c13_sparse(ctx: &mut Ctx) {
+    use lambda_calculus::data::num::church::*;
+    let ch = |n: usize| n.into_church();
+    let mut pairs: Vec<(usize, usize)> = vec![(7, 3), (9, 2), (12, 5), (8, 8), (10, 1), (6, 11), (13, 4), (3, 9), (16, 7), (11, 0), (0, 9)];
+    if ctx.thorough {
+        for _ in 0..60 {
+            pairs.push((ctx.rng.below(22), ctx.rng.below(22)));
+        }
+    }
+    for (m, n) in pairs {
+        let bin: Vec<(&str, Term, Term)> = vec![
+            ("add", add(), ch(m + n)),
+            ("sub", sub(), ch(m.saturating_sub(n))),
+            ("mul", mul(), ch(m * n)),
+            ("min", min(), ch(m.min(n))),
+            ("max", max(), ch(m.max(n))),
+            ("lt", lt(), b(m < n)),
+            ("leq", leq(), b(m <= n)),
+            ("eq", eq(), b(m == n)),
+            ("neq", neq(), b(m != n)),
+            ("geq", geq(), b(m >= n)),
+            ("gt", gt(), b(m > n)),
+        ];
+        for (name, f, exp) in bin {
+            check_prog(ctx, &format!("church {} {} {}", name, m, n), &app!(f, ch(m), ch(n)), &exp, &ALL4);
+        }
+        let k = n % 5;
+        check_prog(ctx, &format!("church shr {} {}", m, k), &app!(shr(), ch(m), ch(k)), &ch(m >> k), &LAZY_HAP);
+        check_prog(ctx, &format!("church shl {} {}", m % 8, k), &app!(shl(), ch(m % 8), ch(k)), &ch((m % 8) << k), &ALL4);
+        if n != 0 {
+            check_prog(ctx, &format!("church div {} {}", m, n), &app!(div(), ch(m), ch(n)),
+                &IntoChurchNum::into_church((m / n, m % n)), &LAZY_HAP);
+            check_prog(ctx, &format!("church quot {} {}", m, n), &app!(quot(), ch(m), ch(n)), &ch(m / n), &LAZY_HAP);
+            check_prog(ctx, &format!("church rem {} {}", m, n), &app!(rem(), ch(m), ch(n)), &ch(m % n), &LAZY_HAP);
+        }
+        for (name, f, exp) in [
+            ("succ", succ(), ch(m + n + 1)),
+            ("pred", pred(), ch((m + n).saturating_sub(1))),
+            ("is_zero", is_zero(), b(m + n == 0)),
+            ("is_even", is_even(), b((m + n) % 2 == 0)),
+            ("is_odd", is_odd(), b((m + n) % 2 == 1)),
+        ] {
+            check_prog(ctx, &format!("church {} {}", name, m + n), &app(f, ch(m + n)), &exp, &ALL4);
+        }
+    }
+    check_prog(ctx, "church pow 2 6", &app!(pow(), ch(2), ch(6)), &ch(64), &ALL4);
+    check_prog(ctx, "church pow 5 2", &app!(pow(), ch(5), ch(2)), &ch(25), &ALL4);
 }
 
 // ------------------------------------------------------------------------------------------ C14
@@ -154,6 +206,48 @@ pub fn c14(ctx: &mut Ctx) {
             }
         }
     }
+    // sparse sample of larger arguments (Parigot terms double with every successor: stay below 14)
+    {
+        let mut ns: Vec<usize> = vec![9, 11, 12];
+        let mut pairs: Vec<(usize, usize)> = vec![(7, 5), (3, 9), (8, 4), (10, 2), (6, 6)];
+        if ctx.thorough {
+            for _ in 0..12 {
+                ns.push(8 + ctx.rng.below(5));
+                pairs.push((ctx.rng.below(8), ctx.rng.below(6)));
+            }
+        }
+        for n in ns {
+            check_prog(ctx, &format!("scott succ {}", n), &app(scott::succ(), sc(n)), &sc(n + 1), &ALL4);
+            check_prog(ctx, &format!("scott pred {}", n), &app(scott::pred(), sc(n)), &sc(n - 1), &ALL4);
+            check_prog(ctx, &format!("scott is_zero {}", n), &app(scott::is_zero(), sc(n)), &b(false), &ALL4);
+            check_prog(ctx, &format!("scott to_church {}", n), &app(scott::to_church(), sc(n)), &n.into_church(), &LAZY);
+            check_prog(ctx, &format!("parigot succ {}", n), &app(parigot::succ(), pa(n)), &pa(n + 1), &ALL4);
+            check_prog(ctx, &format!("parigot pred {}", n), &app(parigot::pred(), pa(n)), &pa(n - 1), &ALL4);
+            check_prog(ctx, &format!("parigot is_zero {}", n), &app(parigot::is_zero(), pa(n)), &b(false), &ALL4);
+            check_prog(ctx, &format!("stumpfu succ {}", n), &app(stumpfu::succ(), sf(n)), &sf(n + 1), &ALL4);
+            check_prog(ctx, &format!("stumpfu pred {}", n), &app(stumpfu::pred(), sf(n)), &sf(n - 1), &ALL4);
+            check_prog(ctx, &format!("stumpfu is_zero {}", n), &app(stumpfu::is_zero(), sf(n)), &b(false), &ALL4);
+            check_prog(ctx, &format!("stumpfu to_church {}", n), &app(stumpfu::to_church(), sf(n)), &n.into_church(), &ALL4);
+            check_prog(ctx, &format!("stumpfu to_scott {}", n), &app(stumpfu::to_scott(), sf(n)), &sc(n), &ALL4);
+            check_prog(ctx, &format!("stumpfu to_parigot {}", n), &app(stumpfu::to_parigot(), sf(n)), &pa(n), &ALL4);
+            check_prog(ctx, &format!("church to_scott {}", n), &app(church::to_scott(), n.into_church()), &sc(n), &ALL4);
+            check_prog(ctx, &format!("church to_parigot {}", n), &app(church::to_parigot(), n.into_church()), &pa(n), &ALL4);
+            check_prog(ctx, &format!("church to_stumpfu {}", n), &app(church::to_stumpfu(), n.into_church()), &sf(n), &ALL4);
+        }
+        for (m, n) in pairs {
+            check_prog(ctx, &format!("scott add {} {}", m, n), &app!(scott::add(), sc(m), sc(n)), &sc(m + n), &LAZY);
+            check_prog(ctx, &format!("parigot add {} {}", m, n), &app!(parigot::add(), pa(m), pa(n)), &pa(m + n), &ALL4);
+            check_prog(ctx, &format!("parigot sub {} {}", m, n), &app!(parigot::sub(), pa(m), pa(n)), &pa(m.saturating_sub(n)), &ALL4);
+            check_prog(ctx, &format!("stumpfu add {} {}", m, n), &app!(stumpfu::add(), sf(m), sf(n)), &sf(m + n), &ALL4);
+            if m * n <= 24 {
+                check_prog(ctx, &format!("scott mul {} {}", m, n), &app!(scott::mul(), sc(m), sc(n)), &sc(m * n), &LAZY);
+                check_prog(ctx, &format!("stumpfu mul {} {}", m, n), &app!(stumpfu::mul(), sf(m), sf(n)), &sf(m * n), &ALL4);
+            }
+            if m * n <= 12 {
+                check_prog(ctx, &format!("parigot mul {} {}", m, n), &app!(parigot::mul(), pa(m), pa(n)), &pa(m * n), &ALL4);
+            }
+        }
+    }
     // binary
     let top = if ctx.thorough { 130usize } else { 34 };
     for n in 0..top {
@@ -166,6 +260,26 @@ pub fn c14(ctx: &mut Ctx) {
         check_prog(ctx, &format!("binary shl0 {}", n), &strip(app(binary::shl0(), bi(n))), &bi(2 * n), &ALL4);
         check_prog(ctx, &format!("binary shl1 {}", n), &strip(app(binary::shl1(), bi(n))), &bi(2 * n + 1), &ALL4);
         check_prog(ctx, &format!("binary strip {}", n), &strip(bi(n)), &bi(n), &ALL4);
+    }
+    // the top of the usize range: a 64-bit binary numeral is only 64 applications, so these are cheap in-range inputs
+    // (succ of usize::MAX and shl of numbers >= 2^63 are left out: their results are not representable natively)
+    {
+        let strip = |t: Term| app(binary::strip(), t);
+        let m = usize::MAX;
+        let h = 1usize << (usize::BITS - 1);
+        for &n in [h - 1, h, h + 1, m - 1, m, (1 << 32) - 1, 1 << 32, 0xAAAA_AAAA_AAAA_AAAA, 0x5555_5555_5555_5555].iter() {
+            check_prog(ctx, &format!("binary is_zero {}", n), &app(binary::is_zero(), bi(n)), &b(n == 0), &ALL4);
+            check_prog(ctx, &format!("binary lsb {}", n), &app(binary::lsb(), bi(n)), &(if n % 2 == 1 { binary::b1() } else { binary::b0() }), &ALL4);
+            check_prog(ctx, &format!("binary pred {}", n), &strip(app(binary::pred(), bi(n))), &bi(n - 1), &ALL4);
+            check_prog(ctx, &format!("binary strip {}", n), &strip(bi(n)), &bi(n), &ALL4);
+            if n < m {
+                check_prog(ctx, &format!("binary succ {}", n), &strip(app(binary::succ(), bi(n))), &bi(n + 1), &ALL4);
+            }
+            if n < h {
+                check_prog(ctx, &format!("binary shl0 {}", n), &strip(app(binary::shl0(), bi(n))), &bi(2 * n), &ALL4);
+                check_prog(ctx, &format!("binary shl1 {}", n), &strip(app(binary::shl1(), bi(n))), &bi(2 * n + 1), &ALL4);
+            }
+        }
     }
     // strip on bit strings with leading zeroes: k leading zero bits on top of n
     for n in 0..10usize {
@@ -230,6 +344,25 @@ pub fn c15(ctx: &mut Ctx) {
                 }
             }
         }
+        // sparse sample of larger magnitudes and non-canonical pairs
+        let singles: [(usize, usize); 8] = [(3, 0), (0, 3), (5, 2), (2, 5), (4, 4), (6, 1), (1, 7), (3, 6)];
+        for (p, n) in singles {
+            let z = p as i64 - n as i64;
+            check_prog(ctx, &format!("signed simplify {} ({},{})", en, p, n), &app(simplify(e), pairt(p, n)), &canon(z), &LAZY);
+            check_prog(ctx, &format!("signed modulus {} ({},{})", en, p, n), &app(modulus(e), pairt(p, n)), &into_num(e, z.unsigned_abs() as usize), &LAZY);
+            check_prog(ctx, &format!("signed neg {} ({},{})", en, p, n), &app(neg(), pairt(p, n)), &pairt(n, p), &LAZY);
+        }
+        let doubles: [((usize, usize), (usize, usize)); 6] =
+            [((3, 1), (1, 4)), ((5, 0), (0, 3)), ((2, 6), (3, 1)), ((0, 4), (0, 3)), ((4, 1), (2, 2)), ((1, 3), (5, 1))];
+        for ((p1, n1), (p2, n2)) in doubles {
+            let (a, bb) = (p1 as i64 - n1 as i64, p2 as i64 - n2 as i64);
+            let (x, y) = (pairt(p1, n1), pairt(p2, n2));
+            check_prog(ctx, &format!("signed add {} ({},{}) ({},{})", en, p1, n1, p2, n2), &app!(add(e), x.clone(), y.clone()), &canon(a + bb), &LAZY);
+            check_prog(ctx, &format!("signed sub {} ({},{}) ({},{})", en, p1, n1, p2, n2), &app!(sub(e), x.clone(), y.clone()), &canon(a - bb), &LAZY);
+            if (p1 + n1) * (p2 + n2) <= 9 {
+                check_prog(ctx, &format!("signed mul {} ({},{}) ({},{})", en, p1, n1, p2, n2), &app!(mul(e), x, y), &canon(a * bb), &LAZY);
+            }
+        }
     }
 }
 
@@ -260,7 +393,18 @@ pub fn c16(ctx: &mut Ctx) {
     use lambda_calculus::data::list::{church as cl, pair as pl, parigot as gl, scott as sl};
     use lambda_calculus::data::num::church as cn;
     let (maxlen, alpha) = if ctx.thorough { (4, 3) } else { (3, 2) };
-    let lists = all_lists(maxlen, alpha);
+    let mut lists = all_lists(maxlen, alpha);
+    // beyond the exhaustive part: a few LONGER lists with larger elements (a definition can be right up to length 3 and
+    // wrong from 4 on — e.g. anything with a step budget or a fixed unrolling)
+    for v in [vec![3, 1, 4, 1], vec![0, 0, 0, 0], vec![0, 2, 0, 5, 1], vec![1, 0, 0, 2, 0, 3], vec![2, 1, 2, 1, 2, 1, 2, 1], vec![5]] {
+        lists.push(v);
+    }
+    if ctx.thorough {
+        for _ in 0..40 {
+            let l = 4 + ctx.rng.below(6);
+            lists.push((0..l).map(|_| ctx.rng.below(6)).collect());
+        }
+    }
     let ch = |n: usize| n.into_church();
     // ---- four encodings: observers on converted lists
     for v in &lists {
